@@ -49,9 +49,16 @@ def strip_comments(src: str) -> str:
 
 
 def lake_build(targets: list[str]) -> None:
-    r = subprocess.run(["lake", "build", *targets], cwd=LEAN_DIR, capture_output=True, text=True)
-    if r.returncode != 0:
-        raise MachineryError("lake build failed:\n" + (r.stdout + r.stderr)[-4000:])
+    # several checks may run at the same time: lake serialises builds with a lock file, a second process can fail
+    # on it transiently — retry before calling the machinery broken
+    last = None
+    for attempt in range(4):
+        r = subprocess.run(["lake", "build", *targets], cwd=LEAN_DIR, capture_output=True, text=True)
+        if r.returncode == 0:
+            return
+        last = r
+        time.sleep(3 + 4 * attempt)
+    raise MachineryError("lake build failed:\n" + (last.stdout + last.stderr)[-4000:])
 
 
 def proof_audit(pid: str) -> dict:
@@ -92,13 +99,17 @@ def proof_audit(pid: str) -> dict:
     prefix = ""
     if not names:
         raise MachineryError(f"no theorems in {path}")
-    audit = os.path.join(LEAN_DIR, f".audit_{pid}.lean")
+    audit = os.path.join(LEAN_DIR, f".audit_{pid}_{os.getpid()}.lean")  # unique: the same check may run twice at once
     with open(audit, "w") as fh:
         fh.write(f"import {module}\n")
         for n in names:
             fh.write(f"#print axioms {prefix}{n}\n")
     try:
-        r = subprocess.run(["lake", "env", "lean", audit], cwd=LEAN_DIR, capture_output=True, text=True)
+        for attempt in range(3):
+            r = subprocess.run(["lake", "env", "lean", audit], cwd=LEAN_DIR, capture_output=True, text=True)
+            if r.returncode == 0:
+                break
+            time.sleep(3 + 4 * attempt)  # e.g. an .olean being rewritten by a concurrent build
     finally:
         os.remove(audit)
     if r.returncode != 0:
